@@ -2,17 +2,36 @@ package pongo2
 
 import (
 	"bytes"
+	"fmt"
 )
 
 type tagIfchangedNode struct {
 	watchedExpr []IEvaluator
-	lastValues  []*Value
-	lastContent []byte
 	thenWrapper *NodeWrapper
 	elseWrapper *NodeWrapper
 }
 
+// tagIfchangedState is what an ifchanged tag saw last within one execution.
+// It is kept in the execution's shared context (not in the node, which
+// belongs to the compiled template and is shared by all executions).
+type tagIfchangedState struct {
+	lastValues  []*Value
+	lastContent []byte
+}
+
+func (node *tagIfchangedNode) state(ctx *ExecutionContext) *tagIfchangedState {
+	key := fmt.Sprintf("pongo2.ifchanged.%p", node)
+	if st, ok := ctx.Shared[key].(*tagIfchangedState); ok {
+		return st
+	}
+	st := &tagIfchangedState{}
+	ctx.Shared[key] = st
+	return st
+}
+
 func (node *tagIfchangedNode) Execute(ctx *ExecutionContext, writer TemplateWriter) *Error {
+	st := node.state(ctx)
+
 	if len(node.watchedExpr) == 0 {
 		// Check against own rendered body
 
@@ -23,10 +42,10 @@ func (node *tagIfchangedNode) Execute(ctx *ExecutionContext, writer TemplateWrit
 		}
 
 		bufBytes := buf.Bytes()
-		if !bytes.Equal(node.lastContent, bufBytes) {
+		if !bytes.Equal(st.lastContent, bufBytes) {
 			// Rendered content changed, output it
 			writer.Write(bufBytes)
-			node.lastContent = bufBytes
+			st.lastContent = bufBytes
 		}
 	} else {
 		nowValues := make([]*Value, 0, len(node.watchedExpr))
@@ -39,16 +58,16 @@ func (node *tagIfchangedNode) Execute(ctx *ExecutionContext, writer TemplateWrit
 		}
 
 		// Compare old to new values now
-		changed := len(node.lastValues) == 0
+		changed := len(st.lastValues) == 0
 
-		for idx, oldVal := range node.lastValues {
+		for idx, oldVal := range st.lastValues {
 			if !oldVal.EqualValueTo(nowValues[idx]) {
 				changed = true
 				break // we can stop here because ONE value changed
 			}
 		}
 
-		node.lastValues = nowValues
+		st.lastValues = nowValues
 
 		if changed {
 			// Render thenWrapper
